@@ -222,25 +222,33 @@ def make_zhit_harness(n_points: int):
 TESTS = ("complex", "real", "imaginary", "complex-inv", "real-inv", "imaginary-inv", "cnls", "bogus")
 
 
-def make_kk_harness(n_points: int):
+def make_kk_harness(n_points: int, part: str, symbolic_minima: bool = False, quick: bool = True):
     def harness(eng):
         import numpy as np
         import pyimpspec.analysis.kramers_kronig.exploratory as ex
         from pyimpspec.exceptions import KramersKronigError
         from pyimpspec import parse_cdc
-        test = TESTS[eng.choice(len(TESTS), "test")]
-        add_l = eng.choice(2, "add_inductance") == 1
-        admittance = eng.choice(2, "admittance") == 1
-        rapid = eng.choice(2, "rapid") == 1
-        num_procs = (1, 3)[eng.choice(2, "num_procs")]
-        rc_kind = eng.choice(3, "num_RCs.kind")
+        if part == "options":
+            # every test kind / option flag, without the F_ext search (and with too few evaluations, which must be refused)
+            test = TESTS[eng.choice(len(TESTS), "test")]
+            add_l = eng.choice(2, "add_inductance") == 1
+            admittance = eng.choice(2, "admittance") == 1
+            rapid = False
+            num_procs = (1, 3)[eng.choice(2, "num_procs")]
+            rc_kind = eng.choice(3, "num_RCs.kind")
+            nfc = (0, 5, -3)[eng.choice(3, "num_F_ext_evaluations.kind")]
+        else:
+            # the F_ext search: number of evaluations, limits and intermediate minima symbolic
+            test = ("complex", "cnls")[eng.choice(2, "test")]
+            add_l, admittance = True, False
+            rapid = eng.choice(2, "rapid") == 1
+            num_procs = (1, 3)[eng.choice(2, "num_procs")]
+            rc_kind = eng.choice(2, "num_RCs.kind")
+            NF = (-14, -10, -9, 0, 9, 10, 11, 14) if quick else tuple(range(-14, 15))
+            nfc = NF[eng.choice(len(NF), "num_F_ext_evaluations")]
         num_RCs = [None, [2, 3], [2, 999]][rc_kind]
-        nf = eng.integer("num_F_ext_evaluations", -14, 14)
-        nfc = int(nf)
-        lo = eng.real("min_log_F_ext", npy=False)
-        hi = eng.real("max_log_F_ext", npy=False)
-        eng.assume(lo >= -2)
-        eng.assume(hi <= 2)
+        LIMITS = ((-1.0, 1.0), (0.0, 1.0), (-1.0, 0.3), (0.5, 1.0)) if quick else ((-1.0, 1.0), (-0.5, 1.0), (0.0, 1.0), (-1.0, 0.3), (0.5, 1.0), (-1.0, 0.0))
+        lo, hi = LIMITS[eng.choice(len(LIMITS), "limits")]
         data = _data(n_points)
         calls: List[str] = []
         dummy = parse_cdc("R{R=100}")
@@ -284,7 +292,8 @@ def make_kk_harness(n_points: int):
 
         def target(baseline):
             calls.append("target")
-            return int(eng.integer("target_num_RC", -3, 12))
+            T = (-1, 0, 3, 12)
+            return T[eng.choice(len(T), "target_num_RC")]
 
         def statistic(fits, f, test, target_num_RC):
             calls.append("statistic")
@@ -296,11 +305,16 @@ def make_kk_harness(n_points: int):
         k = [0]
 
         def pick(x, y, xi, yi):
+            # the located minimum: either end of the interval, its middle, or (symbolically, thorough tier) anywhere inside
             k[0] += 1
-            m = eng.real("minimum%d" % k[0])
-            eng.assume(m >= lo)
-            eng.assume(m <= hi)
-            return m
+            xs_ = [float(v) for v in x]
+            opts = [min(xs_), xs_[len(xs_) // 2]] if quick else [min(xs_), max(xs_), (min(xs_) + max(xs_)) / 2, xs_[len(xs_) // 2]]
+            if symbolic_minima:
+                m = eng.real("minimum%d" % k[0])
+                eng.assume(m >= min(xs_))
+                eng.assume(m <= max(xs_))
+                return m
+            return opts[eng.choice(len(opts), "minimum%d" % k[0])]
 
         import lmfit
 
@@ -370,12 +384,15 @@ def obligations(tier: str):
                               expect_reach=["zhit"], max_paths=3000000))
     kf = [ex.evaluate_log_F_ext, ex._perform_tests, ex._use_least_squares_fitting, ex._use_matrix_inversion, ex._use_cnls, ex._wrapper,
           ex._evaluate_log_F_ext_using_custom_approach, ex._evaluate_log_F_ext_using_lmfit, ex._log_F_ext_residual]
-    kstubs = ["test kernels (_leastsq_test, _inv_test, _cnls_test), _estimate_target_num_RC (any integer -3..12), _calculate_statistic, "
+    kstubs = ["test kernels (_leastsq_test, _inv_test, _cnls_test), _estimate_target_num_RC (-1, 0, 3 or 12), _calculate_statistic, "
               "_fit_cubic_and_interpolate, _pick_minimum (any value inside the limits), lmfit.minimize (calls the residual max_nfev+1 times) and Pool stubbed"]
     for n in ((6,) if tier == "quick" else (4, 6, 9)):
-        obs.append(Obligation("kk.n%d" % n, make_kk_harness(n),
-                              bounds="%d points; test kinds %r x num_RCs {auto, [2,3], [2,999]} x add_inductance x admittance x rapid x num_procs {1,3} x "
-                                     "num_F_ext_evaluations -14..14 x symbolic log F_ext limits in [-2, 2]" % (n, TESTS), functions=kf, stubs=kstubs,
+        obs.append(Obligation("kk.options.n%d" % n, make_kk_harness(n, "options", quick=(tier == "quick")),
+                              bounds="%d points; test kinds %r x num_RCs {auto, [2,3], [2,999]} x add_inductance x admittance x num_procs {1,3} x "
+                                     "num_F_ext_evaluations {0, 5, -3}" % (n, TESTS), functions=kf, stubs=kstubs, expect_reach=["kk"], max_paths=3000000))
+        obs.append(Obligation("kk.fext.n%d" % n, make_kk_harness(n, "fext", quick=(tier == "quick")),
+                              bounds="%d points; tests {complex, cnls} x num_RCs {auto, [2,3]} x rapid x num_procs {1,3} x num_F_ext_evaluations %s x "
+                                     "pairs of log F_ext limits (valid and invalid) x located minima at an end / a grid point" % (n, "{-14,-10,-9,0,9,10,11,14}" if tier == "quick" else "-14..14"), functions=kf, stubs=kstubs,
                               expect_reach=["kk"], max_paths=3000000))
     for o in obs:
         o.replay = o.harness
